@@ -22,6 +22,7 @@ import (
 	"github.com/polynetwork/poly/native"
 	scom "github.com/polynetwork/poly/native/service/cross_chain_manager/common"
 	ccbsc "github.com/polynetwork/poly/native/service/cross_chain_manager/bsc"
+	cceth "github.com/polynetwork/poly/native/service/cross_chain_manager/eth"
 	ccbytom "github.com/polynetwork/poly/native/service/cross_chain_manager/bytom"
 	ccheco "github.com/polynetwork/poly/native/service/cross_chain_manager/heco"
 	cchsc "github.com/polynetwork/poly/native/service/cross_chain_manager/hsc"
@@ -66,6 +67,8 @@ type Router struct {
 func chainIDBig() *big.Int { return big.NewInt(evmChainID) }
 
 var routers = map[string]*Router{
+	"eth": {Name: "eth", ID: utils.ETH_ROUTER, Family: "eth",
+		Deposit: func(ns *native.NativeService) (*scom.MakeTxParam, error) { return cceth.NewETHHandler().MakeDepositProposal(ns) }},
 	"bsc": {Name: "bsc", ID: utils.BSC_ROUTER, Family: "bsc",
 		SealHash:    func(h *etypes.Header) ecommon.Hash { return bsc.SealHash(h, chainIDBig()) },
 		CanonHeight: bsc.GetCanonicalHeight,
